@@ -26,6 +26,9 @@ VERSIONS = ['0.1.dev1', '0.1', '0.2.dev3', '0.2', '0.10', '1.0rc1', '1.0', '1.0.
 PROJECT = 'p'
 REFRESH = 0.02  # seconds: the refresh interval every history is driven with
 
+AB_PROJECTS = ['pa', 'pb', 'pc']
+AB_RELEASES = ['1', '2']
+
 SIG_F1 = 'abtest-lower-bound-k>=3-within-k-1'
 SIG_F2 = 'latest-stale-configured-release-empty-at-first-refresh'
 
@@ -102,6 +105,46 @@ def doc_shares(values: list) -> list[F]:
         values = [implicit if v is None else v for v in values]
     total = sum(values, F(0))
     return [v / total for v in values]
+
+
+# ---- ABTest variant sets as declared through the builder (spec side) ------------------------------------------
+def default_coords(k: int) -> list:
+    """generations 1..k of one release of one project, nothing switched"""
+    return [[0, 0, 1]] + [[g, None, None] for g in range(2, k + 1)]
+
+
+def declared_identities(coords: list) -> list[tuple]:
+    """(project, release, generation) per declared variant: `compare(project, release, generation)` names the first,
+    every `over` / `against` names its generation and - where given - the release and / or project, which otherwise
+    are those of the variant declared before it (docs: application.ABTest.Builder)."""
+    p, r, g = coords[0]
+    out = [(p, r, g)]
+    for g, r2, p2 in coords[1:]:
+        p = p if p2 is None else p2
+        r = r if r2 is None else r2
+        out.append((p, r, g))
+    return out
+
+
+def encode_coords(idents: list) -> list:
+    """a declaration of the given identities with only the necessary switches"""
+    out = [list(idents[0])]
+    for (pp, pr, _), (p, r, g) in zip(idents, idents[1:]):
+        out.append([g, None if r == pr else r, None if p == pp else p])
+    return out
+
+
+def gen_coords(rng, k: int, duplicates: bool = True) -> list:
+    """random declaration: project / release switches anywhere (the closing `against` included), given although
+    unchanged, or omitted; mostly exclusive identities, now and then a duplicate"""
+    for _ in range(50):
+        coords = [[rng.randrange(len(AB_PROJECTS)), rng.randrange(len(AB_RELEASES)), rng.randint(1, 12)]]
+        for _ in range(k - 1):
+            coords.append([rng.randint(1, 12), rng.choice([None, None, 0, 1]), rng.choice([None, None, 0, 1, 2])])
+        idents = declared_identities(coords)
+        if len(set(idents)) == k or (duplicates and rng.random() < 0.05):
+            return coords
+    return default_coords(k)
 
 
 def spec_latest(rels, cfg):
@@ -190,6 +233,52 @@ def f2_shaped(cfg, rels0, ops) -> bool:
     return False
 
 
+FAULTS = ('missing', 'invalid', 'os', 'other')
+
+
+def _faulty_registry(path):
+    """A posix registry whose next listing call *made by a thread other than the driver's* (i.e. by the selector's
+    background refresher) raises the armed exception, once: a transient fault of the registry."""
+    import forml
+    from forml.io import asset
+    from forml.provider.registry.filesystem import posix
+
+    driver = threading.current_thread()
+
+    class Faulty(posix.Registry):
+        armed = None
+        struck = 0
+        closed = False  # the history is over: the refresher's next listing ends its thread (SystemExit is no Exception)
+
+        def arm(self, kind: str) -> None:
+            self.armed = {'missing': forml.MissingError('transient: listing unavailable'),
+                          'invalid': asset.Level.Invalid('transient: listing invalid'),
+                          'os': OSError(116, 'Stale file handle'),
+                          'other': RuntimeError('transient: registry backend hiccup')}[kind]
+
+        def _strike(self) -> None:
+            if self.closed and threading.current_thread() is not driver:
+                raise SystemExit
+            if self.armed is not None and threading.current_thread() is not driver:
+                exc, self.armed = self.armed, None
+                self.struck += 1
+                raise exc
+
+        def projects(self):
+            self._strike()
+            return super().projects()
+
+        def releases(self, project):
+            self._strike()
+            return super().releases(project)
+
+        def generations(self, project, release):
+            self._strike()
+            return super().generations(project, release)
+
+    return Faulty(path)
+
+
 def drive_history(job: dict) -> dict:
     """Run one history on the real code.  job: kind ('latest'|'explicit'), cfg, rels0, ops, expect (model observations,
     optional), patience.  Returns observations per op and the waits."""
@@ -199,7 +288,7 @@ def drive_history(job: dict) -> dict:
 
     canary = _canary()
     root = pathlib.Path(tempfile.mkdtemp(prefix='hist-', dir=_STAGING))
-    registry = posix.Registry(root / 'registry')
+    registry = _faulty_registry(root / 'registry')
     directory = asset.Directory(registry)
     rels = []
     waits = {'polls': 0, 'max_wait_s': 0.0, 'patience_exhausted': 0, 'hard_timeouts': 0}
@@ -266,6 +355,15 @@ def drive_history(job: dict) -> dict:
                 registry_op(op)
                 dirty = True
                 obs.append('-')
+            elif op[0] == 'fault':
+                registry.arm(op[1])
+                if selected[0]:  # a refresher exists: give it the time to run into the fault
+                    t0, c0 = time.monotonic(), canary.count
+                    while registry.armed is not None and not (canary.count - c0 >= PATIENCE['short'][0]
+                                                              and time.monotonic() - t0 >= PATIENCE['short'][1]):
+                        time.sleep(REFRESH / 2)
+                dirty = True
+                obs.append('-')
             elif op == 'select' or op[0] == 'select':
                 use = True if op == 'select' else bool(op[1])
                 spec = spec_latest(rels, cfg) if job['kind'] == 'latest' else None
@@ -298,8 +396,11 @@ def drive_history(job: dict) -> dict:
             else:
                 raise ValueError(f'bad op {op!r}')
     finally:
-        shutil.rmtree(root, ignore_errors=True)  # the refresher of this history ends on its next round
-    return {'obs': obs, 'waits': waits, 'final': [[r, list(gs)] for r, gs in rels], 'patience': [need_iter, need_s]}
+        registry.closed = True  # the refresher of this history ends on its next round
+        time.sleep(2 * REFRESH)
+        shutil.rmtree(root, ignore_errors=True)
+    return {'obs': obs, 'waits': waits, 'final': [[r, list(gs)] for r, gs in rels], 'patience': [need_iter, need_s],
+            'faults_struck': registry.struck}
 
 
 def _fnorm(x: float) -> list[int]:
@@ -316,7 +417,7 @@ def _fnorm(x: float) -> list[int]:
 class C17(fw.Check):
     ID = 'C17'
     LEAN_MODULES = ['ForML.Lemmas.C17Float', 'ForML.Lemmas.C17Latest', 'ForML.Lemmas.C17LatestInv', 'ForML.Lemmas.C17LatestFresh',
-                    'ForML.Lemmas.C17Explicit', 'ForML.Props.C17']
+                    'ForML.Lemmas.C17Explicit', 'ForML.Lemmas.C17Builder', 'ForML.Props.C17']
     DRIVER = 'drv_c17'
     RULE = ('ABTest: variant sets of 2..6 with integer / dyadic-float / omitted targets (omitted ones in every position; '
             'all-explicit, complement rule, mean rule, ties) x request counts n (every prefix of the selection sequence is '
@@ -324,6 +425,10 @@ class C17(fw.Check):
             '(targets, n) and non-trivial when at least two variants get selected; arbitrary float targets with omitted '
             'ones: oracle only. Oracle on the real select sequence against the *documented* normalisation in declaration '
             'order: never fails, count < share*n+1, count > share*n-1 (k=2) resp. > share*n-(k-1) (k>=3, envelope of C17-F1). '
+            'Every variant set is declared through ABTest.compare().over().against() with project / release / generation '
+            'switches, omitted keywords and the odd duplicate; requests are attributed to declared variants by the identity of '
+            'the instance returned. Latest histories also contain transient registry faults (MissingError, Level.Invalid, '
+            'OSError, RuntimeError) striking the next listing made by the refresher. '
             'Latest: static registries of 1..5 releases with 0..3 generations each incl. empty ones, configured/unconfigured; '
             'histories publish/commit/tick/select(use|no use) over a real posix registry with refresh=0.02s, configured '
             '(published, empty, unpublished) / unconfigured release x commits to the served, to higher and to other '
@@ -336,6 +441,7 @@ class C17(fw.Check):
         'arbitrary (non-dyadic) float targets: only the share-bound oracle, not the exact model',
         'thread scheduling of Latest._refresh: the harness waits for the refresher as long as a thread of the same '
         'shape needs for 40 rounds (>= 1.5 s); hard time-outs are reported as data (evidence), never as violations',
+        'a transient fault strikes the first registry call of a refresh round (the model treats the round as atomic)',
         'one registry per selector (Latest._cache is keyed by registry; a refresher that died is not restarted for a '
         'second registry); registries only grow (no deletion of releases/generations)',
     ]
@@ -404,37 +510,62 @@ class C17(fw.Check):
         return den & (den - 1) == 0 and implicit > 0
 
     @staticmethod
-    def _build_abtest(values):
-        """Real ABTest over generations 1..k of one release; values: python targets (int/float/None)."""
+    def _build_abtest(values, coords=None):
+        """Real ABTest built through the public builder API `compare(..).over(..)…against(..)`; values: python targets
+        (int/float/None) per variant, coords: `[project, release, generation]` of the first variant and
+        `[generation, release|None, project|None]` (None = keyword omitted) of the others."""
         from forml import application
         from forml.io import asset
 
+        coords = coords or default_coords(len(values))
         Double = _registry_double()
-        directory = asset.Directory(Double({'p': {'1': list(range(1, len(values) + 1))}}))
-        builder = application.ABTest.compare('p', '1', 1, values[0])
-        for i, t in enumerate(values[1:-1], start=2):
-            builder = builder.over(i, target=t)
-        return builder.against(len(values), target=values[-1]), directory
+        directory = asset.Directory(Double({p: {r: list(range(1, 13)) for r in AB_RELEASES} for p in AB_PROJECTS}))
+        p, r, g = coords[0]
+        builder = application.ABTest.compare(AB_PROJECTS[p], AB_RELEASES[r], g, values[0])
+        for i, ((g, r, p), t) in enumerate(zip(coords[1:], values[1:]), start=2):
+            kwargs = {}
+            if r is not None:
+                kwargs['release'] = AB_RELEASES[r]
+            if p is not None:
+                kwargs['project'] = AB_PROJECTS[p]
+            if t is not None or i % 2:  # an omitted target is passed as None or not at all
+                kwargs['target'] = t
+            if i < len(values):
+                builder = builder.over(g, **kwargs)
+            else:
+                return builder.against(g, **kwargs), directory
+        raise AssertionError('at least two variants')
 
-    def _run_abtest(self, ts, d, n):
-        """Real ABTest: returns ((slot order as variant indices, picks as variant indices), slot targets) or
-        (('error', cls), None) when the constructor raises."""
+    def _run_abtest(self, ts, d, n, coords=None):
+        """Real ABTest: returns ((slot order as variant indices, picks as variant indices), slot targets, built variants)
+        or (('error', cls), None, None) when the constructor raises."""
         values = [None if t is None else (t if d == 1 else t / d) for t in ts]  # exact: d is a power of two
-        return self._run_abtest_values(values, n)
+        return self._run_abtest_values(values, n, coords)
 
-    def _run_abtest_values(self, values, n):
+    def _run_abtest_values(self, values, n, coords=None):
+        coords = coords or default_coords(len(values))
+        idents = declared_identities(coords)
         try:
-            ab, directory = self._build_abtest(values)
+            ab, directory = self._build_abtest(values, coords)
         except Exception as e:  # pylint: disable=broad-except
-            return ('error', type(e).__name__), None
+            return ('error', type(e).__name__), None, None
+
+        def index(ident):
+            return idents.index(ident) if ident in idents else ('undeclared', list(ident))
+
         slots = getattr(ab, '_slots', None)
-        order = targets = None
+        order = targets = built = None
         if slots is not None:
             try:
-                order = [int(s.variant.generation) - 1 for s in slots]
+                seen = [(AB_PROJECTS.index(str(s.variant.project)), AB_RELEASES.index(str(s.variant.release)),
+                         int(s.variant.generation)) for s in slots]
+                built = sorted([*i, s.variant.target] for i, s in zip(seen, slots))
+                order = [index(i) for i in seen]
+                if any(not isinstance(o, int) for o in order):
+                    order = None
                 targets = [float(s.target) for s in slots]
             except Exception:  # pylint: disable=broad-except
-                order = targets = None
+                order = targets = built = None
         picks = []
         for _ in range(n):
             try:
@@ -442,18 +573,23 @@ class C17(fw.Check):
             except Exception as e:  # pylint: disable=broad-except
                 picks.append(('error', type(e).__name__))
                 break
-            picks.append(_ident(inst)[2] - 1)
-        return (order, picks), targets
+            project, release, gen = _ident(inst)
+            picks.append(index((AB_PROJECTS.index(project), AB_RELEASES.index(release), gen)))
+        return (order, picks), targets, built
 
     @staticmethod
-    def _oracle_abtest(shares, picks):
-        """The property on the real selection sequence: `shares` = documented normalised share per variant (declaration
-        order, exact), `picks` = selected variant per request.  Returns [(what, signature, detail)], first failure only."""
+    def _oracle_abtest(shares, picks, idents=None):
+        """The property on the real selection sequence: `shares` = documented normalised share per *declared* variant
+        (declaration order, exact), `picks` = the declared variant each request was served by (identified by the
+        project / release / generation of the instance returned).  Returns [(what, signature, detail)], first failure only."""
         k = len(shares)
         counts = [0] * k
         for n, p in enumerate(picks, start=1):
-            if isinstance(p, tuple):
+            if isinstance(p, tuple) and p[0] == 'error':
                 return [(f'ABTest.select raised {p[1]} at request {n}', 'abtest-select-fails', {'n': n})]
+            if isinstance(p, tuple):
+                return [(f'request {n} was served by (project, release, generation) = {tuple(p[1])}, which is none of the '
+                         f'declared variants {idents}', 'abtest-undeclared-variant', {'n': n, 'served': p[1]})]
             counts[p] += 1
             for v in range(k):
                 dev = counts[v] - shares[v] * n
@@ -468,26 +604,28 @@ class C17(fw.Check):
                              {'n': n, 'variant': v, 'k': k, 'count': counts[v], 'share': str(shares[v])})]
         return []
 
-    def _check_values(self, values, n):
+    def _check_values(self, values, n, coords=None):
         """Oracle on one variant set (python target values): [(what, sig, detail)]; [] also when not constructible."""
-        res, _ = self._run_abtest_values(values, n)
+        coords = coords or default_coords(len(values))
+        res, _, _ = self._run_abtest_values(values, n, coords)
         if res[0] == 'error':
             return []
         shares = doc_shares([None if v is None else F(v) for v in values])
-        return self._oracle_abtest(shares, res[1])
+        return self._oracle_abtest(shares, res[1], declared_identities(coords))
 
-    def _shrink_abtest(self, values, n, sig):
+    def _shrink_abtest(self, values, n, sig, coords=None):
         """Smaller variant set / targets / request count with a violation of the same signature."""
-        best = (list(values), n)
+        idents = declared_identities(coords or default_coords(len(values)))
+        best = (list(values), n, idents)
         budget = 60
 
-        def fails(vals, nn):
+        def fails(vals, nn, ids):
             nonlocal budget
-            if budget <= 0 or len(vals) < 2:
+            if budget <= 0 or len(vals) < 2 or len(set(ids)) != len(ids):
                 return None
             budget -= 1
             try:
-                out = self._check_values(vals, nn)
+                out = self._check_values(vals, nn, encode_coords(ids))
             except Exception:  # pylint: disable=broad-except
                 return None
             return out[0] if out and out[0][1] == sig else None
@@ -495,72 +633,97 @@ class C17(fw.Check):
         improved = True
         while improved and budget > 0:
             improved = False
-            vals, nn = best
-            cands = [vals[:i] + vals[i + 1:] for i in range(len(vals))] if len(vals) > 2 else []
+            vals, nn, ids = best
+            cands = [(vals[:i] + vals[i + 1:], ids[:i] + ids[i + 1:]) for i in range(len(vals))] if len(vals) > 2 else []
             for i, v in enumerate(vals):
                 for simpler in (None, 1, 2, 0.5, 0.25):
                     if v is not None and simpler != v and (simpler is None or isinstance(v, float) == isinstance(simpler, float)):
-                        cands.append(vals[:i] + [simpler] + vals[i + 1:])
-            for cand in cands:
-                hit = fails(cand, nn)
+                        cands.append((vals[:i] + [simpler] + vals[i + 1:], ids))
+            for i in range(1, len(ids)):  # one coordinate less switched
+                p, r, g = ids[i]
+                for alt in ((ids[i - 1][0], r, g), (p, ids[i - 1][1], g)):
+                    if alt != ids[i]:
+                        cands.append((vals, ids[:i] + [alt] + ids[i + 1:]))
+            for cvals, cids in cands:
+                hit = fails(cvals, nn, cids)
                 if hit:
-                    best = (cand, hit[2]['n'])
+                    best = (cvals, hit[2]['n'], cids)
                     improved = True
                     break
-        return best
+        return best[0], best[1], encode_coords(best[2])
 
-    def _report_abtest(self, kind, ts, d, values, n, found):
+    def _report_abtest(self, kind, ts, d, values, n, found, coords=None):
         for what, sig, detail in found:
             witness = {'kind': kind, 'targets': ts, 'n': detail['n']}
             if kind == 'abtest':
                 witness['den'] = d
+            if coords is not None:
+                witness['coords'] = coords
             if sig not in (SIG_F1,) and not any(v.signature == sig for v in self.violations):
-                small, sn = self._shrink_abtest(values, detail['n'], sig)
-                again = self._check_values(small, sn)
+                small, sn, scoords = self._shrink_abtest(values, detail['n'], sig, coords)
+                again = self._check_values(small, sn, scoords)
                 if again and again[0][1] == sig:
                     what, _, detail = again[0]
-                    witness = {'kind': 'abtest-float', 'targets': small, 'n': detail['n'], 'variant': detail.get('variant'),
-                               'shrunk_from': {'targets': ts, 'den': d}}
+                    witness = {'kind': 'abtest-float', 'targets': small, 'coords': scoords, 'n': detail['n'],
+                               'variant': detail.get('variant'), 'projects': AB_PROJECTS, 'releases': AB_RELEASES,
+                               'shrunk_from': {'targets': ts, 'den': d, 'coords': coords}}
             self.violate(what, witness, sig, detail)
 
     def _abtest(self):
         cases = self._abtest_cases()
         nreq = self.n(120, 300)
+        # every variant set is declared through the builder: half of them across projects / releases
+        plans = [gen_coords(self.rng, len(ts)) if i % 2 else default_coords(len(ts)) for i, (ts, _) in enumerate(cases)]
         lines = [sexp.dumps(['abtest', d, ts, nreq]) for ts, d in cases]
         answers = [sexp.num(sexp.loads(a)) for a in self.model(lines)]
+        blines = [sexp.dumps(['abbuild', [*co[0], ts[0]], [[g, r, p, t] for (g, r, p), t in zip(co[1:], ts[1:])]])
+                  for (ts, _), co in zip(cases, plans)]
+        banswers = [sexp.num(sexp.loads(a)) for a in self.model(blines)]
         # binary64 model of the same runs: slot targets and the eligibility sequence in float arithmetic
         flines = [sexp.dumps(['ftrace', [m[1][v] for v in m[2]], nreq]) for m in answers if m[0] == 'ok']
         fanswers = iter(sexp.num(sexp.loads(a)) for a in self.model(flines))
-        for (ts, d), m in zip(cases, answers):
+        for (ts, d), coords, m, bm in zip(cases, plans, answers, banswers):
             fm = next(fanswers) if m[0] == 'ok' else None
-            res, targets = self._run_abtest(ts, d, nreq)
+            res, targets, built = self._run_abtest(ts, d, nreq, coords)
             k = len(ts)
-            shape = f'abtest k={k} ' + ('none' if any(t is None for t in ts) else 'dyadic' if d > 1 else 'int')
-            if res[0] == 'error':
-                self.case(('ab', tuple(ts), d), shape + ' ctor-error', nontrivial=False)
-                self.diverge('ABTest constructor raised', {'targets': ts, 'den': d}, res, m)
+            idents = declared_identities(coords)
+            cross = 'cross' if len({i[:2] for i in idents}) > 1 else 'same'
+            shape = f'abtest k={k} {cross} ' + ('none' if any(t is None for t in ts) else 'dyadic' if d > 1 else 'int')
+            case = {'targets': ts, 'den': d, 'coords': coords}
+            if res[0] == 'error' or bm[0] != 'ok':
+                self.case(('ab', tuple(ts), d, repr(coords)), shape + ' ctor-error', nontrivial=False)
+                exclusive = len(set(idents)) == len(idents)
+                if (res[0] == 'error') != (bm[0] != 'ok') or (res[0] == 'error' and (res[1] != 'ValueError' or exclusive)):
+                    self.diverge('ABTest builder / constructor', case, res, bm)
                 continue
             order, picks = res
-            self.case(('ab', tuple(ts), d, nreq), shape, nontrivial=len(set(map(str, picks))) > 1,
-                      sample={'targets': ts, 'den': d, 'slot_order': order, 'first_picks': picks[:12]})
+            self.case(('ab', tuple(ts), d, repr(coords), nreq), shape, nontrivial=len(set(map(str, picks))) > 1,
+                      sample={'targets': ts, 'den': d, 'coords': coords, 'slot_order': order, 'first_picks': picks[:12]})
+            # the built variant list against the model of the builder and against the declaration
+            want = sorted([*i, t] for i, t in zip(idents, ts))
+            if sorted(bm[1], key=str) != sorted(([p, r, g, 'none' if t is None else t] for p, r, g, t in want), key=str):
+                self.diverge('ABTest.Builder model vs declaration', case, want, bm[1])
+            if built is not None:
+                real = sorted([p, r, g, None if t is None else (t if d == 1 else round(t * d))] for p, r, g, t in built)
+                if real != want:
+                    self.diverge('ABTest.Builder variant list', case, real, want)
             if m[0] != 'ok' or (order is not None and m[2] != order) or m[3] != picks:
                 mp = m[3] if m[0] == 'ok' else None
                 idx = next((i for i, (a, b) in enumerate(zip(picks, mp or [])) if a != b), None)
-                self.diverge('ABTest selection sequence', {'targets': ts, 'den': d, 'n': nreq, 'first_diff_at': idx},
+                self.diverge('ABTest selection sequence', dict(case, n=nreq, first_diff_at=idx),
                              {'order': order, 'picks': picks[: (idx or 0) + 3]},
                              {'order': m[2] if m[0] == 'ok' else m, 'picks': (mp or [])[: (idx or 0) + 3]})
             elif fm is not None:
                 # float tie: the binary64 model selects the same sequence and computes the same slot targets
                 fpicks = [m[2][i] for i in fm[2]] if fm[0] == 'ok' else None
                 if fpicks != picks:
-                    self.diverge('ABTest selection sequence (binary64 model)', {'targets': ts, 'den': d, 'n': nreq},
+                    self.diverge('ABTest selection sequence (binary64 model)', dict(case, n=nreq),
                                  picks[:20], (fpicks or fm)[:20])
                 if targets is not None and fm[0] == 'ok' and [_fnorm(t) for t in targets] != fm[1]:
-                    self.diverge('ABTest slot targets (binary64)', {'targets': ts, 'den': d},
-                                 [_fnorm(t) for t in targets], fm[1])
+                    self.diverge('ABTest slot targets (binary64)', case, [_fnorm(t) for t in targets], fm[1])
             values = [None if t is None else (t if d == 1 else t / d) for t in ts]
             shares = doc_shares([None if t is None else F(t, d) for t in ts])
-            self._report_abtest('abtest', ts, d, values, nreq, self._oracle_abtest(shares, picks))
+            self._report_abtest('abtest', ts, d, values, nreq, self._oracle_abtest(shares, picks, idents), coords)
         # arbitrary (non-dyadic) float targets, omitted ones in any position: oracle only (the exact model is not
         # comparable bit for bit)
         for _ in range(self.n(80, 800)):
@@ -572,8 +735,9 @@ class C17(fw.Check):
                 explicit = sum(F(t) for t in ts if t is not None)
                 if abs(explicit - 1) < F(1, 1000):  # the float sum must be on the same side of 1 as the exact one
                     continue
-            self.case(('abf', tuple(ts), nreq), f'abtest-float k={k}' + (' none' if None in ts else ''), nontrivial=True)
-            self._report_abtest('abtest-float', ts, None, ts, nreq, self._check_values(ts, nreq))
+            coords = gen_coords(self.rng, k, duplicates=False)
+            self.case(('abf', tuple(ts), repr(coords), nreq), f'abtest-float k={k}' + (' none' if None in ts else ''), nontrivial=True)
+            self._report_abtest('abtest-float', ts, None, ts, nreq, self._check_values(ts, nreq, coords), coords)
 
     def _fdiv(self):
         """The binary64 division of the model against CPython's `/` (ties, boundaries, random magnitudes)."""
@@ -672,13 +836,16 @@ class C17(fw.Check):
                     apply_registry_op(rels, op)
             return rels
 
+
         for _ in range(rng.randint(3, 7)):
             what = rng.choice(['select', 'select', 'select-nouse', 'commit-served', 'commit-served', 'commit-higher',
-                               'commit-other', 'publish', 'tick'])
+                               'commit-other', 'publish', 'tick', 'fault'])
             rels = known()
             served = spec_latest(rels, cfg)
             top = max(r for r, _ in rels)
-            if what == 'select':
+            if what == 'fault':  # a transient fault of the registry under the refresher, then business as usual
+                ops += [['fault', rng.choice(FAULTS)], 'tick']
+            elif what == 'select':
                 ops += ['tick', ['select', True], 'tick']
             elif what == 'select-nouse':
                 ops += ['tick', ['select', False], 'tick']
@@ -706,7 +873,7 @@ class C17(fw.Check):
             import forml.application  # noqa: F401 pylint: disable=unused-import,import-outside-toplevel
             from forml.provider.registry.filesystem import posix  # noqa: F401 pylint: disable=unused-import
 
-            self._pool = multiprocessing.get_context('fork').Pool(min(8, os.cpu_count() or 2), maxtasksperchild=40)
+            self._pool = multiprocessing.get_context('fork').Pool(min(8, os.cpu_count() or 2))
         return self._pool.map(drive_history, jobs, chunksize=1)
 
     def _close_pool(self):
@@ -727,11 +894,15 @@ class C17(fw.Check):
         div, found = None, []
         filled = False
         outlived = 0
+        faulted = []
         for i, (op, got) in enumerate(zip(ops, result['obs'])):
             if op == 'tick':
                 continue
             if op[0] in ('publish', 'commit'):
                 apply_registry_op(rels, op)
+                continue
+            if op[0] == 'fault':
+                faulted.append(op[1])
                 continue
             use = bool(op[1])
             mod = model_obs[i]
@@ -749,8 +920,6 @@ class C17(fw.Check):
                 continue
             if got not in mod and div is None:
                 div = ('Latest over a history', i, got, mod)
-            if shaped and got != mod[0]:
-                outlived += 1  # the refresher's first round came after the first commit: timing, not behaviour
             if spec is None:
                 if got[0] == 'served':
                     found.append((f'Latest serves {got[1:]} although no generation is available at step {i}',
@@ -765,10 +934,11 @@ class C17(fw.Check):
                 sig = 'latest-pick-wrong'
                 what = f'Latest first resolved {got[1:]} but the newest generation of the {"configured" if cfg is not None else "highest"} release is {spec}'
             else:
-                sig = SIG_F2 if shaped else 'latest-refresh-stale'
+                sig = 'latest-stale-after-registry-fault' if faulted else SIG_F2 if shaped else 'latest-refresh-stale'
                 need = result.get('patience', PATIENCE['full'])
                 what = (f'Latest still serves {got[1:]} although {spec} had been committed and the refresher (refresh='
-                        f'{REFRESH}s) was given > {need[0]} intervals / {need[1]}s')
+                        f'{REFRESH}s) was given > {need[0]} intervals / {need[1]}s'
+                        + (f' (transient registry fault(s) before: {", ".join(faulted)})' if faulted else ''))
             found.append((what, sig, {'step': i, 'served': got, 'newest': spec}))
             break
         return div, found, outlived
@@ -776,19 +946,14 @@ class C17(fw.Check):
     def _run_histories(self, cases, patience='full', blind=False):
         """Model observations and the driven real history per case; `blind`: the real run polls for the spec value only
         (not told what the model predicts)."""
-        # the model is run as the code is (a failing refresh round ends the refresher) and as repaired (survive): they
-        # differ only where the configured release is empty at first use, and there the real refresher's first round
-        # races with the first commit - either prediction is accepted, the oracle judges against the spec alone
-        lines = [self._model_history(sv, *c) for c in cases for sv in (False, True)]
+        # the model is run as the code is: a refresh round that raises is logged and retried (survive)
+        lines = [self._model_history(True, *c) for c in cases]
         answers = [sexp.num(sexp.loads(a)) for a in self.model(lines)]
         jobs, mobs = [], []
-        for k, (cfg, rels0, ops) in enumerate(cases):
-            asis, repaired = answers[2 * k], answers[2 * k + 1]
-            if asis[0] != 'ok' or repaired[0] != 'ok':
-                raise fw.MachineryError(f'model rejected history {lines[2 * k]}: {asis} {repaired}')
-            if asis != repaired and not f2_shaped(cfg, rels0, ops):
-                raise fw.MachineryError(f'model variants differ on a history of another shape: {lines[2 * k]}')
-            both = [[a] if a == b else [a, b] for a, b in zip(asis[1], repaired[1])]
+        for line, (cfg, rels0, ops), m in zip(lines, cases, answers):
+            if m[0] != 'ok':
+                raise fw.MachineryError(f'model rejected history {line}: {m}')
+            both = [[a] for a in m[1]]
             mobs.append(both)
             jobs.append({'kind': 'latest', 'cfg': cfg, 'rels0': rels0, 'ops': ops, 'expect': None if blind else both,
                          'patience': patience})
@@ -800,6 +965,7 @@ class C17(fw.Check):
             agg['max_wait_s'] = max(agg['max_wait_s'], r['waits']['max_wait_s'])
             agg['patience_exhausted'] += r['waits']['patience_exhausted']
             agg['hard_timeouts'] += r['waits']['hard_timeouts']
+            agg['faults_struck'] = agg.get('faults_struck', 0) + r.get('faults_struck', 0)
         return list(zip(mobs, results))
 
     def _shrink_history(self, cfg, rels0, ops, sig):
@@ -845,6 +1011,11 @@ class C17(fw.Check):
                                       ['commit', 1], 'tick', ['select', True]]),
                 (None, [[2, []]], ['tick', ['select', True], 'tick', ['commit', 2], 'tick', ['select', True]]),
             ]
+            for kind in FAULTS:  # one transient fault under the refresher, then a commit: picked up all the same
+                cases.append((None, [[1, [1]], [2, []]], ['tick', ['select', True], 'tick', ['fault', kind], 'tick', ['commit', 2],
+                                                         'tick', ['select', True], ['commit', 2], 'tick', ['select', True]]))
+                cases.append((1, [[1, [1]], [2, [1]]], ['tick', ['select', True], 'tick', ['fault', kind], 'tick', ['commit', 1],
+                                                        'tick', ['select', True]]))
         for _ in range(count):
             cases.append(self._gen_history())
         outlived = 0
@@ -854,7 +1025,7 @@ class C17(fw.Check):
             """chunk-wise: once the tree under test is known to break the property the remaining histories are driven with
             the short patience, and after enough failing inputs not at all (bounded run time on a broken tree)"""
             for at in range(0, len(cases), 32):
-                fresh = [v for v in self.violations if v.signature.startswith('latest-') and v.signature != SIG_F2]
+                fresh = [v for v in self.violations if v.signature.startswith('latest-')]
                 if len(fresh) >= 6:
                     self.notes.append(f'{len(cases) - at} further histories not driven: {len(fresh)} failing inputs found already')
                     return
@@ -874,7 +1045,7 @@ class C17(fw.Check):
             if div is not None:
                 self.diverge(div[0], dict(witness, step=div[1]), div[2], div[3])
             for what, sig, detail in found:
-                if sig not in (SIG_F2,) and shrunk < 2 and not any(v.signature == sig for v in self.violations):
+                if shrunk < 2 and not any(v.signature == sig for v in self.violations):
                     shrunk += 1
                     scfg, srels, sops = self._shrink_history(cfg, rels0, ops, sig)
                     (smobs, sres), = self._run_histories([(scfg, srels, sops)])
@@ -884,9 +1055,6 @@ class C17(fw.Check):
                         witness = {'kind': 'latest-history', 'configured': scfg, 'releases': srels, 'ops': sops,
                                    'versions': VERSIONS, 'observed': sres['obs']}
                 self.violate(what, witness, sig, detail)
-        if outlived:
-            self.notes.append(f'{outlived} observation(s) fresher than the model predicted on histories where the configured '
-                              'release is empty at first use (the refresher met the release only after its first commit)')
 
     def _explicit(self):
         cases = []
@@ -972,7 +1140,7 @@ class C17(fw.Check):
         seeds = [d.case for d in self.divergences if isinstance(d.case, dict) and 'targets' in d.case and 'n' in d.case]
         tried = set()
         for c in seeds[:20]:
-            ts, d = c['targets'], c.get('den', 1)
+            ts, d, coords = c['targets'], c.get('den', 1), c.get('coords')
             for delta in itertools.product([0, 1, -1], repeat=len(ts)):
                 cand = [None if t is None else max(1, t + dl) for t, dl in zip(ts, delta)]
                 key = (tuple(cand), d)
@@ -980,8 +1148,13 @@ class C17(fw.Check):
                     continue
                 tried.add(key)
                 values = [None if t is None else (t if d == 1 else t / d) for t in cand]
-                self._report_abtest('abtest', cand, d, values, 600, self._check_values(values, 600))
+                self._report_abtest('abtest', cand, d, values, 600, self._check_values(values, 600, coords), coords)
         self.notes.append(f'failing-input search ({reason}): {len(tried)} neighbouring weight vectors x 600 requests')
+        builder = [d.case for d in self.divergences if d.what.startswith(('ABTest.Builder', 'ABTest builder'))]
+        for c in builder[:10]:  # the builder diverged: serve requests from the declared set until the wrong model shows
+            d = c.get('den', 1)
+            values = [None if t is None else (t if d == 1 else t / d) for t in c['targets']]
+            self._report_abtest('abtest', c['targets'], d, values, 600, self._check_values(values, 600, c['coords']), c['coords'])
         if any(not (isinstance(d.case, dict) and 'targets' in d.case) for d in self.divergences) and not self.violations:
             # Latest / Instance / Explicit diverged: more and longer registry histories on the real code
             try:
@@ -998,10 +1171,12 @@ class C17(fw.Check):
                 values = [None if t is None else (t if d == 1 else t / d) for t in w['targets']]
             else:
                 values = w['targets']
-            res, _ = self._run_abtest_values(values, w['n'])
+            coords = w.get('coords') or default_coords(len(values))
+            res, _, _ = self._run_abtest_values(values, w['n'], coords)
             if res[0] == 'error':
                 return fw.Violation(f'ABTest constructor raised {res}', w, 'abtest-ctor')
-            for what, sig, detail in self._oracle_abtest(doc_shares([None if v is None else F(v) for v in values]), res[1]):
+            for what, sig, detail in self._oracle_abtest(doc_shares([None if v is None else F(v) for v in values]), res[1],
+                                                         declared_identities(coords)):
                 return fw.Violation(what, w, sig, detail)
             return None
         if w.get('kind') == 'latest-history':
